@@ -187,6 +187,44 @@ def setup_leaves(ctx, env, prog, n):
         env.add_sql_leaf(name, LEAVES[name], n, table=tab)
 
 
+def history(env, prog):
+    """Earlier life of the same engine object: the same operation sequence over leaves of the same names and columns that
+    were bound to *other* tables then (equal-but-not-identical relations: leaves compare by engine, name and columns) is
+    built, inspected and compiled.  Anything remembered per equal relation is remembered before the tree under test exists;
+    SQL that still mentions an `old_*` table afterwards is not the translation of the tree under test."""
+    import sqlalchemy as sa
+    from lsst.daf.relation import sql
+    from .prog import build
+
+    env.history = False  # this check's own, stronger history replaces the generic one of prog.build
+    saved = (dict(env.leaves), dict(env.tables), env.metadata)
+    env.leaves.clear()
+    env.tables.clear()
+    md = sa.MetaData()
+    try:
+        for name in sorted(leaves_in(prog)):
+            if name == "I":
+                env.add_special_leaf("I", "identity", "sq")
+                continue
+            tags = [env.tags[c] for c in LEAVES[name]]
+            ca = {t: sa.Column(t.qualified_name, sa.Integer) for t in tags}
+            tbl = sa.Table("old_" + name, md, *ca.values())
+            env.leaves[name] = env.engines["sq"].make_leaf(frozenset(tags), payload=sql.Payload(from_clause=tbl, columns_available=ca),
+                                                           name=name)
+        try:
+            d = build(prog, env)
+            _ = (d.min_rows, d.max_rows, d.columns, str(d))
+            env.engines["sq"].to_executable(d)
+        except Exception:  # noqa: BLE001 - the earlier tree is not the subject
+            pass
+    finally:
+        env.leaves.clear()
+        env.leaves.update(saved[0])
+        env.tables.clear()
+        env.tables.update(saved[1])
+        env.metadata = saved[2]
+
+
 def concrete_env(prog, bind):
     env = Env()
     env.sql_mode = True
@@ -196,6 +234,7 @@ def concrete_env(prog, bind):
             env.add_special_leaf("I", "identity", "sq")
             continue
         env.add_sql_leaf(name, LEAVES[name], 0, table=Tab([], LEAVES[name], False))
+    history(env, prog)
     return env
 
 
